@@ -155,18 +155,54 @@ def run(ctx):
     Xs = rng.normal(size=(30, 3)).astype(np.float32)
     A = umap.UMAP(n_neighbors=5, n_epochs=5, random_state=1).fit(Xs)
     Bsmall = umap.UMAP(n_neighbors=5, n_epochs=5, random_state=1).fit(Xs[:25])
-    # unique=True on data with repeated rows: as many embedding rows as the other operand, fewer graph vertices
+    # unique=True on data with repeated rows: as many embedding rows as the other operand, fewer graph vertices.
+    # Combining graphs of different sizes is exactly the situation the guard exists for; without it compiled kernels index out of
+    # bounds, so these calls run in a child process: a crash there is reported like any other failure to raise.
+    import json as _json
+    import os as _os
+    import subprocess as _sp
+    import sys as _sys
+    import tempfile as _tf
+    from common import REPO as _REPO
     Xd = Xs.copy()
     Xd[20:25] = Xd[:5]
-    Auniq = umap.UMAP(n_neighbors=5, n_epochs=5, random_state=1, unique=True).fit(Xd)
-    for opn, fn in (("add", lambda p, q: p + q), ("mul", lambda p, q: p * q), ("sub", lambda p, q: p - q)):
-        for l_, r_, tag in ((A, Auniq, "plain, unique"), (Auniq, A, "unique, plain")):
-            try:
-                fn(l_, r_)
-                ctx.violation("error-case", f"{opn} of models over {A.graph_.shape[0]} and {Auniq.graph_.shape[0]} distinct samples ({tag}; equal numbers "
-                                            f"of input rows) did not raise", {"op": opn, "operands": tag})
-            except Exception:  # noqa
-                pass
+    with _tf.TemporaryDirectory() as td:
+        np.savez(_os.path.join(td, "d.npz"), Xs=Xs, Xd=Xd)
+        code = (
+            "import sys, json, warnings\n"
+            f"sys.path.insert(0, {_REPO!r})\n"
+            "warnings.filterwarnings('ignore')\n"
+            "import numpy as np, umap\n"
+            f"d = np.load({_os.path.join(td, 'd.npz')!r})\n"
+            "A = umap.UMAP(n_neighbors=5, n_epochs=5, random_state=1).fit(d['Xs'])\n"
+            "U = umap.UMAP(n_neighbors=5, n_epochs=5, random_state=1, unique=True).fit(d['Xd'])\n"
+            "print(json.dumps({'sizes': [int(A.graph_.shape[0]), int(U.graph_.shape[0])]}), flush=True)\n"
+            "ops = {'add': lambda p, q: p + q, 'mul': lambda p, q: p * q, 'sub': lambda p, q: p - q}\n"
+            "for opn, fn in ops.items():\n"
+            "    for l, r, tag in ((A, U, 'plain, unique'), (U, A, 'unique, plain')):\n"
+            "        print(json.dumps({'start': [opn, tag]}), flush=True)\n"
+            "        try:\n"
+            "            fn(l, r); raised = False\n"
+            "        except Exception:\n"
+            "            raised = True\n"
+            "        print(json.dumps({'done': [opn, tag], 'raised': raised}), flush=True)\n")
+        pr = _sp.run([_sys.executable, "-W", "ignore", "-c", code], stdout=_sp.PIPE, stderr=_sp.PIPE, timeout=900)
+    lines = [_json.loads(l) for l in pr.stdout.decode().splitlines() if l.startswith("{")]
+    sizes = next((l["sizes"] for l in lines if "sizes" in l), None)
+    done = {tuple(l["done"]): l["raised"] for l in lines if "done" in l}
+    started = [tuple(l["start"]) for l in lines if "start" in l]
+    for opn in ("add", "mul", "sub"):
+        for tag in ("plain, unique", "unique, plain"):
+            if (opn, tag) in done:
+                if not done[(opn, tag)]:
+                    ctx.violation("error-case", f"{opn} of models over {sizes} distinct samples ({tag}; equal numbers of input rows) did not raise",
+                                  {"op": opn, "operands": tag})
+            elif (opn, tag) in started:
+                ctx.violation("error-case", f"{opn} of models over {sizes} distinct samples ({tag}) neither raised nor returned: the process died "
+                                            f"(exit status {pr.returncode})", {"op": opn, "operands": tag, "exit_status": pr.returncode})
+            elif pr.returncode != 0 and not started:
+                ctx.violation("error-case", f"child process for the mismatched-operand cases failed before the first operation (exit status {pr.returncode}): "
+                                            f"{pr.stderr.decode()[-200:]}", {"op": opn, "operands": tag})
             ctx.case(key="err-unique" + opn + tag, nontrivial=True, part="errors")
     for opn, fn in (("add", lambda p, q: p + q), ("mul", lambda p, q: p * q), ("sub", lambda p, q: p - q)):
         for other, why in ((Bsmall, "different number of samples"), (umap.UMAP(), "unfitted operand")):
